@@ -48,9 +48,26 @@ class VLoop(base_events.BaseEventLoop):
         self.exec_jobs.append((fut, func, args))
         return fut
 
-    def complete_exec_job(self, idx: int = 0):
+    # A thread that already started a job cannot be stopped: with exec_runs_cancelled the function
+    # still runs when its completion is delivered, only its result is dropped (what a real executor does).
+    exec_runs_cancelled = False
+
+    def complete_exec_job(self, idx=0):
+        """idx: position in exec_jobs, or the job tuple itself (stable across several completions in one pass)."""
+        if not isinstance(idx, int):
+            for k, j in enumerate(self.exec_jobs):
+                if j is idx:
+                    idx = k
+                    break
+            else:
+                return
         fut, func, args = self.exec_jobs.pop(idx)
         if fut.cancelled():
+            if self.exec_runs_cancelled:
+                try:
+                    func(*args)
+                except BaseException:  # noqa: BLE001
+                    pass
             return
         try:
             res = func(*args)
